@@ -107,3 +107,27 @@ def as_kind(chunk: bytes, kind: int):
         return memoryview(bytes(chunk))
     pad = b"\xaa\x00\x01" + bytes(chunk) + b"\x00\x55"
     return memoryview(pad)[3 : 3 + len(chunk)]
+
+
+def as_kind_recycled(chunk: bytes, kind: int):
+    """Like as_kind, but mutable kinds are views of a receive buffer the caller owns; returns (object, recycle)
+    where recycle() overwrites that buffer (what a transport does with its read buffer once data_received
+    has returned).  A helper that keeps a reference instead of a copy sees the scribble."""
+    k = kind % 4
+    if k == 0:
+        return bytes(chunk), (lambda: None)
+    if k == 1:
+        buf = bytearray(chunk)
+        obj = buf
+    elif k == 2:
+        buf = bytearray(chunk)
+        obj = memoryview(buf)
+    else:
+        buf = bytearray(b"\xaa\x00\x01" + bytes(chunk) + b"\x00\x55")
+        obj = memoryview(buf)[3 : 3 + len(chunk)]
+
+    def recycle():
+        for i in range(len(buf)):
+            buf[i] = 0xFF
+
+    return obj, recycle
